@@ -554,6 +554,50 @@ nontrivial(const json& c)
   return true;
 }
 
+//! input classes excluded because of known findings (work/notes/C19_findings.md); "" when VERIF_NO_EXCLUDE=1.
+//! F2 (Gaussian, even max_kernel_size: only the "at most m elements" clause is relaxed to m+1) and the transform half of F4
+//! (inverse real-data clauses skipped for last-dimension length 2) are narrower than a case and are handled inside check(),
+//! counted as "excluded:C19:F2:..." / "excluded:C19:F4:...".
+std::string
+known_signature(const json& c)
+{
+  if (no_exclude())
+    return "";
+  const int kind = c.value("kind", -1);
+  if (kind == 3)
+    {
+      const int D = c.value("d", 3);
+      int kmin[3], klen[3];
+      get3(c, "kmin", D, kmin, 0);
+      get3(c, "klen", D, klen, 1);
+      for (int q = 0; q < 3; ++q)
+        if (klen[q] < 1)
+          return "";
+      Nd KT(kmin, klen);
+      fill_kernel(KT, c.at("kseed").get<uint64_t>(), c.at("kpat").get<int>());
+      if (D == 2 ? f1_class<2>(KT) : f1_class<3>(KT))
+        return "C19:F1:ArrayFilter2D/3DUsingConvolution kernel with outer range [0,0] whose origin element is 1 or outside the inner ranges";
+    }
+  if (kind == 7 && c.value("how", 1) == 0)
+    for (const auto& fj : c.at("f"))
+      {
+        const int kl = fj.at("klen").get<int>(), km = fj.at("kmin").get<int>();
+        if (kl > 0 && km + kl - 1 != -km)
+          return "C19:F3:SeparableConvolutionImageFilter constructed from a kernel with asymmetric index range";
+      }
+  if (kind == 2)
+    {
+      const json& lg = c.at("lgP");
+      if (lg.at(lg.size() - 1).get<int>() == 1)
+        return "C19:F4:ArrayFilterUsingRealDFTWithPadding with padded length 2 in the last dimension";
+    }
+  if (kind == 6)
+    for (std::size_t a = 0; a < 3; ++a)
+      if (c.at("maxk").at(a).get<int>() == 1 && c.at("fwhm").at(a).get<double>() > 0)
+        return "C19:F5:SeparableMetzArrayFilter with max_kernel_size 1";
+  return "";
+}
+
 } // namespace
 
 const Property&
@@ -566,6 +610,7 @@ the_property()
   p.nontrivial = nontrivial;
   p.enumerate = enumerate;
   p.fixed_cases = fixed_cases;
+  p.known_signature = known_signature;
   p.rule = "";
   return p;
 }
